@@ -6,17 +6,18 @@ CONSTANTS
   Gran = 1
   Rm = 2
   Rc = 3
-  MaxTx = 2
+  MaxTx = 1
   MaxSends = 2
   MaxInd = 0
   Mech = "st"
   Preset = "none"
   UseFp = FALSE
-  Dts = {0, 2, 7}
+  Dts = {0, 2, 11}
   StaleTicks = 6
   MaxNow = 40
   FixD1 = TRUE
-  Msgs <- MsgsC
+  SimDepth = 0
+  Msgs <- MsgsStSmall
   Apps <- AppsSmall
 CONSTRAINT TimeBound
 VIEW view
